@@ -5,7 +5,10 @@ Oracle: itertools.product enumeration; big-endian expansion; idx round trips; ps
 one-hot probes; size guard; extract_refbasis_samples vs an independent filter; data loaders vs an independent
 parser of files written by the harness (loader clause is correspondence-only, not modelled).
 Histories (seed round 3): every operation above is also evaluated repeatedly on the SAME objects with legal changes in
-between (see the block "HISTORIES" below); the oracle after every step is the one used for a fresh object."""
+between (see the block "HISTORIES" below); the oracle after every step is the one used for a fresh object.
+Red-team round 2: integer arguments in numpy encodings (enc_size / enc_index), limits raised above the stock value
+(raised_limit_cases), one-column / one-row files with shapes demanded and the loader -> extraction -> fit round
+(loader_shape_cases), the narrow-integer size finding candidate (narrow_size_cases)."""
 import itertools, os
 import numpy as np
 
@@ -26,6 +29,12 @@ RULE = ("sizes n=1..10 exhaustively (thorough: ..12), sampled indices for n up t
         "state was allowed to build; data files rewritten at the same paths (also with identical byte size and the old mtime restored) and "
         "loader results edited in place before loading again; samples / bases arrays refilled in place between two extractions; "
         "results returned earlier and not touched by the caller must still hold what was returned. "
+        "Red-team round 2: every size / index argument of generate_hilbert_space / subspace_vector (keyword and positional forms) rotates through "
+        "int, numpy.int64 / int32 / intp / int16 / int8 (narrow ones where 2**size fits), np.sum(...) results and elements of integer arrays "
+        "(indices also uint8); the size limit RAISED above the stock 20 in a subclass (limit 25 / 30 with small sizes; limit 21 with the "
+        "2^21-row table itself when 3 GB are available, size 22 refused); one-column (n = 1), one-row (N = 1) and 1 x 1 data files with the "
+        "SHAPE (N, n) of samples and per-sample bases demanded, the loaded objects handed on to extract_refbasis_samples and to "
+        "fit(input_bases=...) of a ComplexWaveFunction / DensityMatrix. "
         "A history is non-trivial when n >= 2 and at least one change happened before the evaluation")
 ASSUMPTIONS = ["np.loadtxt / file system behave as documented (loader clause is correspondence-only)",
                "after BOTH networks of a state were replaced by ones of ANOTHER num_visible only explicit size= forms are demanded: the states copy "
@@ -34,11 +43,69 @@ ASSUMPTIONS = ["np.loadtxt / file system behave as documented (loader clause is 
                "keeps the parameter shapes)",
                "calls with float32 basis vectors and calls on the 'meta' device are only INTERVENING steps of a history (counted, never required)",
                "whether two calls return the same tensor object is only counted; what is required is that every returned table is right when "
-               "it is returned and that a result the caller has not touched is not altered by a later library call"]
+               "it is returned and that a result the caller has not touched is not altered by a later library call",
+               "sizes are generated as Python ints and SIGNED numpy integers only (what len-like numpy results are); unsigned numpy sizes, float sizes "
+               "and float / uint64 indices are not generated (documented type: int; integer arithmetic such as size - 1 is not int arithmetic on them, "
+               "float sizes are refused by the bit operations of the unchanged tree)",
+               "a limit above the stock one is reached by overriding the public property max_size in a subclass (the only way the library offers)"]
 
 
 def bigendian(n, k):
     return [(k >> (n - 1 - j)) & 1 for j in range(n)]
+
+
+# ---- encodings of the integer arguments (size, index): the documented type is int; numpy code hands over numpy integers
+#      (np.sum(basis != "Z"), np.count_nonzero(...), an element of np.arange / np.argmax).  Signed types only for SIZES (see ASSUMPTIONS);
+#      a narrow type is used only where 2**size still fits it (beyond that: finding candidate F-C19-narrow-int-size, see narrow_size_cases)
+_ROT = [0]
+FINDING_NARROW_SIZE = "F-C19-narrow-int-size"
+
+
+def enc_size(ctx, n, wide_only=False):
+    """-> (value to pass, name of the encoding); rotates deterministically over the encodings"""
+    _ROT[0] += 1
+    r = _ROT[0] % 8
+    n = int(n)
+    if r in (0, 4):
+        out = n
+    elif r == 1:
+        out = np.int64(n)
+    elif r == 2:
+        out = np.int32(n)
+    elif r == 3:
+        out = np.sum(np.ones(n, dtype=bool))                 # what np.sum(basis != "Z") gives: numpy.int64
+    elif r == 5:
+        out = np.intp(n)
+    elif r == 6:
+        out = np.int16(n) if (n <= 14 and not wide_only) else np.int64(n)
+    else:
+        out = np.int8(n) if (n <= 6 and not wide_only) else np.int32(n)
+    name = type(out).__name__
+    ctx.count("size given as:" + name)
+    return out, name
+
+
+def enc_index(ctx, k):
+    _ROT[0] += 1
+    r = _ROT[0] % 8
+    k = int(k)
+    if r in (0, 4):
+        out = k
+    elif r == 1:
+        out = np.int64(k)
+    elif r == 2:
+        out = np.int32(k) if k < 2 ** 31 else np.int64(k)
+    elif r == 3:
+        out = np.arange(k, k + 1)[0]                          # an element of an integer array
+    elif r == 5:
+        out = np.intp(k)
+    elif r == 6:
+        out = np.int16(k) if k < 2 ** 15 else np.int64(k)
+    else:
+        out = np.uint8(k) if k < 2 ** 8 else np.int64(k)
+    name = type(out).__name__
+    ctx.count("index given as:" + name)
+    return out, name
 
 
 
@@ -223,16 +290,17 @@ class Session:
         elif form == "default":
             form = "size="
         args, kw = (), {}
+        nenc, nname = enc_size(ctx, n) if form != "default" else (n, "default")
         if form == "size=":
-            kw = {"size": n}
+            kw = {"size": nenc}
         elif form == "positional":
-            args = (n,)
+            args = (nenc,)
         elif form == "device=":
-            kw = {"size": n, "device": torch.device("cpu")}
+            kw = {"size": nenc, "device": torch.device("cpu")}
         elif form == "device str":
-            kw = {"size": n, "device": "cpu"}
-        self.log("generate_hilbert_space(%s)%s" % ("" if form == "default" else "%s %d" % (form, n), " on a FRESH state of the same class" if fresh else ""))
-        c = self.case("generate_hilbert_space (history)", size=n, form=form)
+            kw = {"size": nenc, "device": "cpu"}
+        self.log("generate_hilbert_space(%s)%s" % ("" if form == "default" else "%s %s(%d)" % (form, nname, n), " on a FRESH state of the same class" if fresh else ""))
+        c = self.case("generate_hilbert_space (history)", size=n, form=form, size_type=nname)
         ctx.case(c, nontrivial=(n >= 2 and len(self.steps) >= 2))
         ctx.count("history eval:generate_hilbert_space/" + form)
         ok, sp = ctx.call("generate_hilbert_space (history)", c, st.generate_hilbert_space, *args, **kw)
@@ -245,11 +313,13 @@ class Session:
         if good and probe:
             ks = sorted(set([0, 2 ** n - 1, 2 ** (n - 1)] + [int(x) for x in ctx.rng.integers(0, 2 ** n, size=3)]))
             for k in ks:
-                ok2, v = ctx.call("subspace_vector (history)", c, st.subspace_vector, k, size=n)
+                kenc, kname = enc_index(ctx, k)
+                n2, n2name = enc_size(ctx, n)
+                ok2, v = ctx.call("subspace_vector (history)", dict(c, k=k, k_type=kname, size_type=n2name), st.subspace_vector, kenc, size=n2)
                 if ok2:
                     vv = np.asarray(v.detach().cpu().numpy(), dtype=float).tolist()
                     ctx.require("history: subspace_vector(k) == row k of the generated space == bits of k",
-                                vv == [float(b) for b in bigendian(n, k)], dict(c, k=k), vv)
+                                vv == [float(b) for b in bigendian(n, k)], dict(c, k=k, k_type=kname, size_type=n2name), vv)
             ok3, idx = ctx.call("_convert_basis_element_to_index (history)", c, U._convert_basis_element_to_index, sp)
             if ok3:
                 got = [int(round(float(x))) for x in np.asarray(idx.detach().cpu().numpy()).reshape(-1)]
@@ -263,12 +333,14 @@ class Session:
         if size is None and self.explicit_only:
             size = n
         k = int(ctx.rng.integers(0, 2 ** n)) if k is None else int(k)
-        self.log("subspace_vector(%d%s)" % (k, "" if size is None else ", size=%d" % n))
-        c = self.case("subspace_vector (history)", k=k, size=n, default_size=(size is None))
+        kenc, kname = enc_index(ctx, k)
+        nenc, nname = enc_size(ctx, n) if size is not None else (None, "default")
+        self.log("subspace_vector(%s(%d)%s)" % (kname, k, "" if size is None else ", size=%s(%d)" % (nname, n)))
+        c = self.case("subspace_vector (history)", k=k, size=n, default_size=(size is None), k_type=kname, size_type=nname)
         ctx.case(c, nontrivial=(n >= 2 and 0 < k < 2 ** n - 1))
         ctx.count("history eval:subspace_vector")
-        kw = {} if size is None else {"size": n}
-        ok, v = ctx.call("subspace_vector (history)", c, self.st.subspace_vector, k, **kw)
+        kw = {} if size is None else {"size": nenc}
+        ok, v = ctx.call("subspace_vector (history)", c, self.st.subspace_vector, kenc, **kw)
         if not ok:
             return None
         try:
@@ -290,13 +362,15 @@ class Session:
         c = self.case("size guard (history)", size=size, max_size=lim, form=form)
         ctx.case(c)
         ctx.count("history eval:size guard")
+        senc, sname = enc_size(ctx, size, wide_only=True)
+        c["size_type"] = sname
         try:
             if form == "default":
                 self.st.generate_hilbert_space()
             elif form == "positional":
-                self.st.generate_hilbert_space(size)
+                self.st.generate_hilbert_space(senc)
             else:
-                self.st.generate_hilbert_space(size=size)
+                self.st.generate_hilbert_space(size=senc)
             refused = False
         except Exception:
             refused = True
@@ -812,8 +886,10 @@ def loader_histories(ctx, rounds):
         return np.asarray(x).astype(np.float32).astype(np.float64)
 
     def rows_of(b, N, n):
+        """the loaded per-sample bases as rows; the SHAPE (N, n) of the file is part of "as written" (a one-site file and a
+        one-sample file are different things)"""
         b = np.asarray(b)
-        return b.reshape(N, n).tolist() if b.size == N * n else b.tolist()
+        return b.tolist() if b.shape == (N, n) else {"wrong shape": list(b.shape), "want": [N, n]}
 
     def verify(C, paths, case):
         N, n = C["samples"].shape
@@ -845,6 +921,11 @@ def loader_histories(ctx, rounds):
 
     for t in range(rounds):
         N, n = int(rng.integers(2, 7)), int(rng.integers(2, 4))
+        if t % 4 == 1:
+            n = 1                   # one-site files
+        if t % 4 == 3:
+            N = 1                   # one-sample files (rewritten with one or two rows more)
+        ctx.count("loader history:N=%s,n=%s" % ("1" if N == 1 else ">1", "1" if n == 1 else ">1"))
         paths = {k: os.path.join(d, "hist%d_%s.txt" % (t, k)) for k in ("samples", "psi", "bases", "all", "re", "im")}
         steps = []
         def case():
@@ -912,6 +993,167 @@ def loader_histories(ctx, rounds):
         ctx.traces += 2
 
 
+def mem_available_gb():
+    try:
+        with open("/proc/meminfo") as f:
+            for line in f:
+                if line.startswith("MemAvailable:"):
+                    return int(line.split()[1]) / 1048576.0
+    except Exception:
+        pass
+    return 0.0
+
+
+def raised_limit_cases(ctx):
+    """the size limit RAISED above the stock value in a subclass (`max_size` is a public property of the states; a machine with
+    enough memory): every size up to the state's OWN limit is generated, only sizes beyond it are refused.  A second, hard-wired cap
+    (a constant 20, a row limit) is visible only with a limit above 20, i.e. with the 2^21-row table (about 0.7 GB on top of the
+    process for two seconds): run in both tiers when at least 3 GB are available, skipped (and counted) otherwise."""
+    from qucumber.nn_states import PositiveWaveFunction, ComplexWaveFunction, DensityMatrix
+    # (a) cheap: a limit far above 20, small sizes in all call forms; (b) limit lowered below and raised back above the stock value on one object
+    for i, kind in enumerate(KINDS):
+        s = Session(ctx, "G: size limit raised above the stock value", kind, 3, limit=25)
+        s.ev_space(size=6); s.ev_space(size=11, form="positional", probe=False); s.ev_space()
+        s.set_limit(4); s.ev_guard(5); s.ev_space(size=4)
+        s.set_limit(30); s.ev_space(size=5); s.ev_space(size=12, probe=False); s.ev_untouched()
+        ctx.traces += 1
+    need = 3.0
+    have = mem_available_gb()
+    if have < need:
+        ctx.count("raised limit: the 2^21-row table skipped (%.1f GB available, %.0f GB wanted)" % (have, need))
+        note = "the 2^21-row table of a state whose limit was raised to 21 was NOT generated in this run (too little memory available)"
+        if note not in ASSUMPTIONS:
+            ASSUMPTIONS.append(note)
+        return
+    kind = KINDS[int(ctx.seed) % 3]
+    n = 21
+    st = new_state(kind, 2, 2, limit=n)
+    nenc, nname = enc_size(ctx, n, wide_only=True)
+    form = ["size=", "positional"][int(ctx.seed) % 2]
+    c = {"fn": "generate_hilbert_space (limit raised to 21)", "state": kind, "size": n, "max_size": n, "size_type": nname, "form": form}
+    ctx.case(c, nontrivial=True)
+    ctx.count("raised limit: the 2^21-row table generated")
+    ok, space = ctx.call("generate_hilbert_space of a size within the state's own (raised) limit", c,
+                         (lambda: st.generate_hilbert_space(size=nenc)) if form == "size=" else (lambda: st.generate_hilbert_space(nenc)))
+    if ok:
+        good = tuple(space.shape) == (2 ** n, n)
+        ctx.require("limit 21: the space of 21 sites has 2^21 rows of 21 sites", good, c, list(space.shape))
+        if good:
+            ks = [0, 1, 2 ** n - 1, 2 ** (n - 1), 2 ** (n - 1) - 1, 2 ** 20 + 5, 1234567] + [int(x) for x in ctx.rng.integers(0, 2 ** n, size=40)]
+            rows = space[ks].numpy().astype(int).tolist()
+            ctx.require("limit 21: row k == big-endian expansion of k", rows == [bigendian(n, k) for k in ks], c,
+                        [k for k, r in zip(ks, rows) if r != bigendian(n, k)][:5])
+        del space
+    c2 = dict(c, fn="size guard (limit raised to 21)", size=22)
+    ctx.case(c2)
+    try:
+        st.generate_hilbert_space(size=22)
+        refused = False
+    except Exception:
+        refused = True
+    ctx.require("limit 21: a space of 22 sites is refused", refused, c2)
+
+
+def narrow_size_cases(ctx):
+    """The size given as a NARROW signed numpy integer for which 2**size leaves the type (np.int8(7), np.int16(15)): on the
+    unchanged tree (NumPy 2 promotion rules) `2 ** size` wraps to 0 and generate_hilbert_space silently returns an EMPTY (0, size)
+    tensor.  Inside the quantifier (all sizes 1..max_size) but it FAILS on the unchanged tree, so it is a finding reported to the
+    integrator: it becomes a demand (ctx.require; known-findings `match: {"finding": "F-C19-narrow-int-size"}`) as soon as
+    known_findings.json lists that id; until then the outcome is only recorded in the evidence (histogram + extra)."""
+    from qucumber.nn_states import PositiveWaveFunction
+    active = any(k.get("id") == FINDING_NARROW_SIZE for k in ctx.known)
+    st = PositiveWaveFunction(2, 2, gpu=False)
+    for size in (np.int8(7), np.int16(15)):
+        n = int(size)
+        case = {"fn": "generate_hilbert_space", "finding": FINDING_NARROW_SIZE, "size": n, "size_type": type(size).__name__}
+        ctx.case(case)
+        try:
+            sp = st.generate_hilbert_space(size=size)
+            ok, detail = bits_ok(sp, n)
+        except Exception as e:
+            ok, detail = False, repr(e)[:200]
+        if active:
+            ctx.require("generate_hilbert_space with the size given as a narrow numpy integer returns the 2^size rows", ok, case, detail)
+        else:
+            ctx.count("finding candidate (reported, not yet a demand) %s: %s" % (FINDING_NARROW_SIZE, "holds" if ok else "FAILS on this tree"))
+            if not ok:
+                ctx.extra.setdefault("finding_candidates", {})[FINDING_NARROW_SIZE] = {"case": case, "detail": str(detail)}
+
+
+def loader_shape_cases(ctx):
+    """one-column (one site) and one-row (one sample) files: samples and per-sample bases come back with the SHAPE (N, n) of the
+    file (a one-site file and a one-sample file are different things), values as written; then the loaded objects go where the
+    library takes them: extract_refbasis_samples(samples, bases) and fit(samples, input_bases=bases)"""
+    import torch
+    from qucumber.nn_states import ComplexWaveFunction, DensityMatrix
+    from qucumber.utils.data import load_data, load_data_DM, extract_refbasis_samples
+    rng = ctx.rng
+    d = ctx.scratch
+    shapes = [(3, 1), (2, 1), (1, 3), (1, 2), (1, 1), (5, 1), (4, 2)]
+    for t, (N, n) in enumerate(shapes):
+        samp = rng.integers(0, 2, size=(N, n))
+        bases = rng.choice(list("XYZ"), size=(N, n), p=[0.25, 0.25, 0.5])
+        bases[0, :] = "Z"                                   # at least one reference-basis row
+        if N >= 3:
+            bases[1, 0] = "X"; bases[2, :] = "Z"
+        psi = rng.normal(size=(2 ** n, 2))
+        mr, mi = rng.normal(size=(2 ** n, 2 ** n)), rng.normal(size=(2 ** n, 2 ** n))
+        allb = rng.choice(list("XYZ"), size=(1 + t % 2, n))
+        f = {k: os.path.join(d, "shape%d_%s.txt" % (t, k)) for k in ("s", "psi", "b", "all", "re", "im")}
+        np.savetxt(f["s"], samp, fmt=["%d", "%.1f", "%.18e"][t % 3])
+        np.savetxt(f["psi"], psi, fmt="%.18e")
+        np.savetxt(f["b"], bases, fmt="%s")
+        np.savetxt(f["all"], np.array(["".join(r) for r in allb]), fmt="%s")
+        np.savetxt(f["re"], mr, fmt="%.18e"); np.savetxt(f["im"], mi, fmt="%.18e")
+        keep = [i for i in range(N) if all(ch == "Z" for ch in bases[i])]
+        for loader in ("load_data", "load_data_DM"):
+            for with_target in (True, False):
+                c = {"fn": loader + " (one-column / one-row files)", "N": N, "n": n, "target": with_target, "bases": ["".join(r) for r in bases],
+                     "samples": samp.tolist()}
+                ctx.case(c, nontrivial=True)
+                ctx.count("loader shapes:N=%s,n=%s" % ("1" if N == 1 else ">1", "1" if n == 1 else ">1"))
+                if loader == "load_data":
+                    ok, out = ctx.call(loader, c, load_data, f["s"], f["psi"] if with_target else None, f["b"], f["all"])
+                else:
+                    ok, out = ctx.call(loader, c, load_data_DM, f["s"], f["re"] if with_target else None, f["im"] if with_target else None, f["b"], f["all"])
+                if not ok:
+                    continue
+                good = len(out) == 3 + with_target
+                ctx.require("loader returns one item per given file, samples first", good, c, len(out))
+                if not good:
+                    continue
+                ts, tb = out[0], out[-2]
+                sshape = tuple(getattr(ts, "shape", ()))
+                ctx.require("loaded samples have the shape (N, n) of the file", sshape == (N, n), c, {"got_shape": list(sshape), "want_shape": [N, n]})
+                ctx.require("loaded samples as written", sshape == (N, n) and bool((np.asarray(ts.numpy()) == samp).all()), c)
+                bshape = tuple(np.shape(tb))
+                ctx.require("loaded per-sample bases have the shape (N, n) of the file", bshape == (N, n), c, {"got_shape": list(bshape), "want_shape": [N, n]})
+                ctx.require("loaded per-sample bases as written", bshape == (N, n) and np.asarray(tb).tolist() == bases.tolist(), c, np.asarray(tb).tolist())
+                ctx.require("loaded basis list as written", [str(x) for x in np.atleast_1d(out[-1])] == ["".join(r) for r in allb], c)
+                if with_target and loader == "load_data":
+                    want = psi.astype(np.float32).astype(np.float64)
+                    ctx.require("target psi to single precision, [re; im] rows", tuple(out[1].shape) == (2, 2 ** n) and bool((out[1].numpy() == want.T).all()), c)
+                if with_target and loader == "load_data_DM":
+                    ctx.require("target matrix to single precision", tuple(out[1].shape) == (2, 2 ** n, 2 ** n)
+                                and bool((out[1][0].numpy() == mr.astype(np.float32).astype(np.float64)).all()
+                                         and (out[1][1].numpy() == mi.astype(np.float32).astype(np.float64)).all()), c)
+                # the loaded objects handed on to the consumers the library has for them
+                ok, z = ctx.call("extract_refbasis_samples(loaded samples, loaded bases)", c, extract_refbasis_samples, ts, tb)
+                if ok:
+                    want_z = samp[keep].astype(float)
+                    ctx.require("reference-basis rows of the LOADED data are exactly the all-Z rows, in order",
+                                tuple(z.shape) == want_z.shape and bool((z.numpy() == want_z).all()), c, {"got": z.tolist(), "want": want_z.tolist()})
+                if with_target:
+                    continue
+                ctx.torch_seed()
+                st = ComplexWaveFunction(n, 2, gpu=False) if loader == "load_data" else DensityMatrix(n, 2, 1, gpu=False)
+                ok, _ = ctx.call("fit(loaded samples, input_bases=loaded bases)", dict(c, state=type(st).__name__),
+                                 lambda: st.fit(ts, epochs=1, pos_batch_size=2, neg_batch_size=2, k=1, lr=0.05, input_bases=tb))
+                if ok:
+                    ctx.count("loader -> extract_refbasis_samples -> fit rounds")
+        ctx.traces += 1
+
+
 def run(ctx):
     import torch
     from qucumber.nn_states import PositiveWaveFunction, ComplexWaveFunction, DensityMatrix
@@ -923,7 +1165,10 @@ def run(ctx):
     nmax = 12 if ctx.thorough else 10
     # ---- histories on the same objects: the fixed ones FIRST (no budget applies to them)
     fixed_histories(ctx)
+    loader_shape_cases(ctx)
+    raised_limit_cases(ctx)
     loader_histories(ctx, 4)
+    narrow_size_cases(ctx)
     # ---- full spaces
     for n in range(1, nmax + 1):
         kind = [PositiveWaveFunction, ComplexWaveFunction, DensityMatrix][n % 3]
@@ -938,10 +1183,14 @@ def run(ctx):
         ctx.require("rows == itertools.product order (big-endian, site 0 MSB)", sp.shape == want.shape and bool((sp == want).all()), case)
         mod = m.call("generate_hilbert_space", n)
         ctx.agree_exact("generate_hilbert_space", sp.tolist(), [[int(x) for x in r] for r in mod[0]], case)
-        # explicit size argument
+        # explicit size argument (Python int and numpy integer encodings)
         if n <= 6:
-            sp2 = s.generate_hilbert_space(size=n + 1).numpy().astype(int)
-            ctx.require("size= argument", bool((sp2 == np.array(list(itertools.product([0, 1], repeat=n + 1)))).all()), case)
+            n1, n1name = enc_size(ctx, n + 1)
+            c1 = dict(case, size=n + 1, size_type=n1name)
+            ok1, sp2 = ctx.call("generate_hilbert_space(size=)", c1, s.generate_hilbert_space, size=n1)
+            if ok1:
+                good, detail = bits_ok(sp2, n + 1)
+                ctx.require("size= argument", good, c1, detail)
         # idx of every row == its position
         idxs = U._convert_basis_element_to_index(space).long().tolist()
         ctx.require("index of row k is k", idxs == list(range(2 ** n)), case)
@@ -950,22 +1199,37 @@ def run(ctx):
         # subspace_vector for a sample of indices
         ks = sorted(set([0, 1, 2 ** n - 1, 2 ** (n - 1)] + [int(x) for x in rng.integers(0, 2 ** n, size=6)]))
         for k in ks:
-            c2 = {"fn": "subspace_vector", "n": n, "k": k}
+            kenc, kname = enc_index(ctx, k)
+            c2 = {"fn": "subspace_vector", "n": n, "k": k, "k_type": kname}
             ctx.case(c2, nontrivial=(n >= 2 and 0 < k < 2 ** n - 1))
-            v = s.subspace_vector(k).numpy().astype(int).tolist()
+            ok1, v = ctx.call("subspace_vector", c2, lambda: s.subspace_vector(kenc).numpy().astype(int).tolist())
+            if not ok1:
+                continue
             ctx.require("subspace_vector == big-endian expansion", v == bigendian(n, k), c2, v)
             ctx.require("subspace_vector == row k", v == sp[k].tolist(), c2)
             ctx.agree_exact("subspace_vector", v, [int(x) for x in m.call("subspace_vector", n, k)], c2)
-            v3 = s.subspace_vector(k, size=n + 2).numpy().astype(int).tolist()
-            ctx.require("subspace_vector size=", v3 == bigendian(n + 2, k), c2)
+            # explicit size other than the state's own, as a Python int and in numpy integer encodings; both argument forms
+            for form in ("size=", "positional"):
+                n2, n2name = enc_size(ctx, n + 2)
+                k2, k2name = enc_index(ctx, k)
+                c3 = dict(c2, size=n + 2, size_type=n2name, k_type=k2name, form=form)
+                ok3, v3 = ctx.call("subspace_vector with an explicit size", c3,
+                                   (lambda: s.subspace_vector(k2, size=n2)) if form == "size=" else (lambda: s.subspace_vector(k2, n2)))
+                if ok3:
+                    v3 = np.asarray(v3.numpy(), dtype=float).astype(int).tolist()
+                    ctx.require("subspace_vector size=", v3 == bigendian(n + 2, k), c3, v3)
     # ---- the FULL generated space at large sizes (rows sampled): generate_hilbert_space itself, not only subspace_vector
     sbig = PositiveWaveFunction(3, gpu=False)
     for n in ([13, 16, 17, 20] if ctx.thorough else [14, 17]):
-        c2 = {"fn": "generate_hilbert_space (large)", "n": n}
+        nenc, nname = enc_size(ctx, n, wide_only=True)
+        c2 = {"fn": "generate_hilbert_space (large)", "n": n, "size_type": nname}
         ctx.case(c2)
-        ok, space = ctx.call("generate_hilbert_space large", c2, sbig.generate_hilbert_space, n)
+        ok, space = ctx.call("generate_hilbert_space large", c2, sbig.generate_hilbert_space, nenc)
         if ok:
-            ctx.require("large space has 2^n rows of n sites", tuple(space.shape) == (2 ** n, n), c2, list(space.shape))
+            good = tuple(space.shape) == (2 ** n, n)
+            ctx.require("large space has 2^n rows of n sites", good, c2, list(space.shape))
+            if not good:
+                continue
             ks = [0, 1, 2 ** n - 1, 2 ** (n - 1), 2 ** (n - 1) - 1, 2 ** 15 + 5 if n > 15 else 5] + [int(x) for x in rng.integers(0, 2 ** n, size=40)]
             ks = [k for k in ks if k < 2 ** n]
             rows = space[ks].numpy().astype(int).tolist()
@@ -976,20 +1240,25 @@ def run(ctx):
     s = PositiveWaveFunction(3, gpu=False)
     for n in ([14, 17, 20] if ctx.thorough else [15, 20]):
         for k in [0, 2 ** n - 1] + [int(x) for x in rng.integers(0, 2 ** n, size=8)]:
-            c2 = {"fn": "subspace_vector", "n": n, "k": k}
+            kenc, kname = enc_index(ctx, k)
+            nenc, nname = enc_size(ctx, n)
+            c2 = {"fn": "subspace_vector", "n": n, "k": k, "k_type": kname, "size_type": nname}
             ctx.case(c2)
-            v = s.subspace_vector(k, size=n)
+            ok1, v = ctx.call("subspace_vector (large size)", c2, s.subspace_vector, kenc, size=nenc)
+            if not ok1:
+                continue
             ctx.require("subspace_vector == big-endian expansion", v.numpy().astype(int).tolist() == bigendian(n, k), c2)
             back = int(U._convert_basis_element_to_index(v).item())
             ctx.require("idx(subspace_vector(k)) == k", back == k, c2, back)
             ctx.agree_exact("idx large", back, int(m.call("idx", [v.numpy().astype(int).tolist()])[0]), c2)
     # ---- size guard: spaces beyond the state's own size limit are refused (any exception); the limit itself is not prescribed
     lim = int(s.max_size)
-    for n in (lim + 1, lim + 5):
-        c2 = {"fn": "size guard", "n": n, "max_size": lim}
+    for n in (lim + 1, lim + 1, lim + 5):
+        nenc, nname = enc_size(ctx, n, wide_only=True)
+        c2 = {"fn": "size guard", "n": n, "max_size": lim, "size_type": nname}
         ctx.case(c2)
         try:
-            s.generate_hilbert_space(size=n)
+            s.generate_hilbert_space(size=nenc)
             refused = False
         except Exception:
             refused = True
@@ -1100,14 +1369,17 @@ def run(ctx):
     #      library, compared with what was written; every subset of the optional arguments; N = 1 included.
     d = ctx.scratch
     def same_rows(t, want, what, case):
+        """values AND shape (N, n) as written in the file"""
         arr = np.asarray(t.numpy() if hasattr(t, "numpy") else t)
         want = np.asarray(want)
-        ok = arr.size == want.size and (arr.shape == want.shape or want.shape[0] == 1 or want.ndim == 1 or want.shape[-1] == 1)
-        ctx.require(what, bool(ok and (arr.reshape(want.shape) == want).all()), case, {"got_shape": list(arr.shape), "want_shape": list(want.shape)})
+        ok = arr.shape == want.shape
+        ctx.require(what, bool(ok and (arr == want).all()), case, {"got_shape": list(arr.shape), "want_shape": list(want.shape)})
     nfiles = 24 if ctx.thorough else 10
     for t in range(nfiles):
         N = 1 if t % 5 == 4 else int(rng.integers(2, 8))
-        n = int(rng.integers(1, 4))
+        n = 1 if t % 5 == 1 else int(rng.integers(1, 4))
+        if t % 10 == 9:
+            N = n = 1
         samp = rng.integers(0, 2, size=(N, n))
         alphabet = list("XYZ") if t % 2 else list("XYZH")
         bases = rng.choice(alphabet, size=(N, n))
@@ -1150,7 +1422,8 @@ def run(ctx):
             if use_tb:
                 tb = next(it)
                 got = np.asarray(tb)
-                ctx.require("bases as written", got.size == bases.size and got.reshape(bases.shape).tolist() == bases.tolist(), c2, got.tolist())
+                ctx.require("bases as written", got.shape == bases.shape and got.tolist() == bases.tolist(), c2,
+                            {"got": got.tolist(), "got_shape": list(got.shape), "want_shape": list(bases.shape)})
             if use_ab:
                 ab = next(it)
                 ctx.require("basis list as written", [str(x) for x in np.atleast_1d(ab)] == ["".join(r) for r in allb], c2)
@@ -1174,7 +1447,8 @@ def run(ctx):
                             bool((tm[0].numpy().reshape(mr.shape) == mr.astype(np.float32).astype(np.float64)).all() and (tm[1].numpy().reshape(mi.shape) == mi.astype(np.float32).astype(np.float64)).all()), c3)
             if use_tb:
                 got = np.asarray(next(it))
-                ctx.require("DM bases as written", got.size == bases.size and got.reshape(bases.shape).tolist() == bases.tolist(), c3)
+                ctx.require("DM bases as written", got.shape == bases.shape and got.tolist() == bases.tolist(), c3,
+                            {"got_shape": list(got.shape), "want_shape": list(bases.shape)})
             if use_ab:
                 ctx.require("DM basis list as written", [str(x) for x in np.atleast_1d(next(it))] == ["".join(r) for r in allb], c3)
         try:
